@@ -18,6 +18,28 @@ pub fn cfg_inputs(thorough: bool) -> Vec<Vec<u8>> {
         }
     }
     v.extend(hostile_heads());
+    // nesting beyond what an 8- / 16-bit depth counter holds (containers of one kind, so that the builds without
+    // alloc can skip them), long containers and strings
+    for depth in [256usize, 65536] {
+        for opener in [&[0x9fu8][..], &[0xbf, 0x00][..], &[0x81][..]] {
+            let mut b: Vec<u8> = Vec::new();
+            for _ in 0..depth {
+                b.extend_from_slice(opener);
+            }
+            b.push(0x00);
+            if opener[0] != 0x81 {
+                b.extend(std::iter::repeat(0xff).take(depth));
+            }
+            b.push(0x05);
+            v.push(b);
+        }
+        let mut a = preferred_head(4, depth as u64);
+        a.extend(std::iter::repeat(0x00).take(depth));
+        v.push(a);
+        let mut t = preferred_head(3, depth as u64);
+        t.extend(std::iter::repeat(b'a').take(depth));
+        v.push(t);
+    }
     let nodes = if thorough { 5 } else { 4 };
     let alpha = if thorough { Alphabet::medium() } else { Alphabet::full() };
     for t in trees_up_to(nodes, &alpha) {
